@@ -74,11 +74,23 @@ class Parser:
         if self.peek() == "*":
             self.eat("*")
             return ["*"]
-        out = [self.ident()]
+        out = [self.col_expr()]
         while self.peek() == ",":
             self.eat(",")
-            out.append(self.ident())
+            out.append(self.col_expr())
         return out
+
+    def col_expr(self):
+        """A column name, or the one column expression the store's SQL uses: date(created_at) (the day of the row)."""
+        if self.peek() == "DATE" and self.peek(1) == "(":
+            self.eat("DATE")
+            self.eat("(")
+            col = self.ident()
+            self.eat(")")
+            if col.lower() != "created_at":
+                raise Unsupported(f"date({col})")
+            return "date(created_at)"
+        return self.ident()
 
     def ident(self):
         tok = self.raw()
